@@ -8,9 +8,9 @@ Open Scope nat_scope.
 Inductive case09 :=
 (* a.binary_search(&k) = Ok/Err r_idx; a.binary_search_by(|x| partial_cmp(x,&k)) = Ok|Err pc_idx *)
 | CBs (a : list N) (k : N) (r_ok : bool) (r_idx pc_idx : N)
-(* HilbertCurve: dimension, order, part_count, weights (f64 bits), additions exact?, recorded
+(* HilbertCurve: dimension, order, part_count, number of points, weights (f64 bits), additions exact?, recorded
    hilbert_indices and hilbert_splits (empty when the run returned before recording), initial ids, result *)
-| CHil (dim order k : N) (ws : list N) (exact : bool) (idx splits : list N) (p0 : list N) (impl : impl_res)
+| CHil (dim order k npts : N) (ws : list N) (exact : bool) (idx splits : list N) (p0 : list N) (impl : impl_res)
 (* ZCurve: dimension, order, part_count, number of points, recorded quadrant codes (one list of
    `order` quadrants per point) and final permutation, initial ids, result *)
 | CZ (dim order k n : N) (codes : list (list N)) (perm : list N) (p0 : list N) (impl : impl_res).
@@ -25,24 +25,33 @@ Definition tol := f64_of_bits hilbert_split_tolerance_bits.
 Definition cls_of (i : impl_res) : N :=
   match i with IOk _ => 0 | IErr _ _ _ => 2 | IPanic => 3 | IHang => 4 end%N.
 
-Definition eval_hil (dim order k : N) (wsb : list N) (exact : bool) (idx splits p0 : list N) (impl : impl_res) : verdict :=
+Definition eval_hil (dim order k npts : N) (wsb : list N) (exact : bool) (idx splits p0 : list N) (impl : impl_res) : verdict :=
   let maxo := if (dim =? 2)%N then hilbert_max_order_2d else hilbert_max_order_3d in
   let ws := map (fun b => f64_of_bits b) wsb in
   let kk := N.to_nat k in
+  let np := N.to_nat npts in
   let early := (maxo <? order)%N || Nat.eqb (length p0) 0 in
-  (* the full model when the weighted sums are exact; otherwise the recorded split vector is an input *)
-  let model :=
-    if early || exact then hilbert_partition tol maxo order wq_fuel idx ws kk p0
-    else bind (assign_parts splits idx) (fun ids => Ok (write_zip p0 ids)) in
+  (* the full model when the weighted sums are exact (or there is no point at all);
+     otherwise the recorded split vector is an input *)
+  let use_full := early || exact || Nat.eqb np 0 in
+  let from_recorded := bind (assign_parts splits idx) (fun ids => Ok (write_zip p0 ids)) in
+  let model := if use_full then hilbert_partition tol maxo order wq_fuel idx ws kk p0 else from_recorded in
+  let recorded_ok := early || Nat.eqb (length idx) np in
   let splits_ok :=
     if early then true
     else
       Nat.eqb (length splits + 1) kk
-      && res_eqb (list_eqb N.eqb) (bind (assign_parts splits idx) (fun ids => Ok (write_zip p0 ids)))
-                 (match impl with IOk p => p | _ => [] end)
+      && res_eqb (list_eqb N.eqb) from_recorded (match impl with IOk p => p | _ => [] end)
       && (if exact then res_eqb (list_eqb N.eqb) (weighted_quantiles tol wq_fuel idx ws kk) splits else true) in
-  let corr := res_matches model impl && match impl with IOk _ => splits_ok | _ => true end in
-  let in_contract := Nat.eqb (length idx) (length p0) && Nat.eqb (length wsb) (length p0) && (1 <=? k)%N in
+  let corr :=
+    match impl with
+    | IOk _ => recorded_ok && res_matches model impl && splits_ok
+    | IErr _ _ _ => res_matches model impl
+    (* a panic is explained only by the full model on what was really recorded *)
+    | IPanic => res_matches model impl && use_full && (Nat.eqb np 0 || Nat.eqb (length idx) np)
+    | IHang => false
+    end in
+  let in_contract := Nat.eqb np (length p0) && Nat.eqb (length wsb) (length p0) && (1 <=? k)%N in
   let prop :=
     if (maxo <? order)%N then match impl with IErr 4 _ _ => true | _ => false end
     else if Nat.eqb (length p0) 0 then match impl with IOk [] => true | _ => false end
@@ -104,7 +113,7 @@ Definition eval09 (c : case09) : verdict :=
     let c1 := match bsearch a k with Ok (b, i) => Bool.eqb b r_ok && (N.of_nat i =? r_idx)%N | _ => false end in
     let c2 := match bsearch_pc_idx a k with Ok i => (N.of_nat i =? pc_idx)%N | _ => false end in
     {| corr_ok := c1 && c2; prop_ok := true; cls := 10%N |}
-  | CHil dim order k ws exact idx splits p0 impl => eval_hil dim order k ws exact idx splits p0 impl
+  | CHil dim order k npts ws exact idx splits p0 impl => eval_hil dim order k npts ws exact idx splits p0 impl
   | CZ dim order k n codes perm p0 impl => eval_z dim order k n codes perm p0 impl
   end.
 
